@@ -147,6 +147,47 @@ def r4_value_ids(cx):
         # sort key closure captures self.0.data (the bytes)
         keyok = len(srt) >= 1 and all(("field", "data") in b.origins(t["args"][1]) for _, t in srt)
         cx.ob("R4", "R4/%s.finalize" % ty, ok and keyok, f, "%s::finalize sorts sorted_indirect by the data bytes, then assigns value ids in that order, then sets finalized = true" % ty)
+        # .. by the *whole* byte strings, in the order of slices: the key function / comparator of the sort looks the value
+        # up and hands it (or compares it) as it is -- a key computed from part of the bytes (a fixed-size head, a hash, a
+        # length first) is another order for some pair of values
+        allowed = (r"as std::ops::Index(Mut)?<usize>>::index(_mut)?$", r"ops::Deref>::deref$", r"convert::AsRef<.*>>::as_ref$", r"borrow::Borrow<.*>>::borrow$",
+                   r"<(std::boxed::Box<\[u8\]>|\[u8\]|&\[u8\]|&std::boxed::Box<\[u8\]>) as std::cmp::(Ord|PartialOrd)>::(cmp|partial_cmp)$", r"impl std::cmp::(Ord|PartialOrd) for \[u8\]>::(cmp|partial_cmp)$",
+                   r"<&.* as std::cmp::(Ord|PartialOrd)(<.*>)?>::(cmp|partial_cmp)$")
+        db = F.deep_body(f, only=r"value_store::", closures=True)
+        other = []
+        nclos = 0
+        for i, t in db.calls(r"::par_sort\w*::<|::sort\w*::<"):
+            if len(t["args"]) < 2:
+                other.append("line %s: sorted without a key (the order of the indices themselves)" % t.get("ln"))
+                continue
+            seen_c, work = set(), []
+            l = op_base_local(t["args"][1])
+            for d in db.defs().get(l, []) if l is not None else []:
+                if d[0] == "stmt" and d[3]["k"] == "assign":
+                    rv = d[3]["rv"]
+                    if rv.get("closure_fn") is not None:
+                        work.append(rv["closure_fn"])
+                    elif rv["k"] == "use" and op_base_local(rv["op"]) is not None:
+                        for d2 in db.defs().get(op_base_local(rv["op"]), []):
+                            if d2[0] == "stmt" and d2[3]["k"] == "assign" and d2[3]["rv"].get("closure_fn") is not None:
+                                work.append(d2[3]["rv"]["closure_fn"])
+            while work:
+                cid = work.pop()
+                if cid in seen_c or cid >= len(F.fns) or "blocks" not in F.fns[cid]:
+                    continue
+                seen_c.add(cid)
+                nclos += 1
+                cb = F.body(F.fns[cid])
+                for j, ct in cb.calls(r"."):
+                    if cb.is_cleanup(j) or call_is(ct, *allowed):
+                        continue
+                    other.append(callee_str(ct).split("::<")[0][-60:])
+                for blk in cb.blocks:
+                    for st in blk["s"]:
+                        if st["k"] == "assign" and (st.get("rv") or {}).get("closure_fn") is not None:
+                            work.append(st["rv"]["closure_fn"])
+        cx.ob("R4", "R4/%s.finalize/whole-bytes-order" % ty, nclos >= 1 and not other, f,
+              "the key / comparator of the sort hands over or compares the whole value, looked up in data, and computes nothing else (%d closure(s); other calls: %s)" % (nclos, sorted(set(other)) or "none"))
     g = F.one(impl_self="value_store::BaseValueStore", item="get", closure=False)
     gb = F.body(g)
     cx.ob("R4", "R4/ids-read-only-when-finalized", bool(gb.panic_blocks()) and any(("field", "finalized") in gb.origins(gb.term(s)["op"]) for s in range(gb.n) if gb.term(s)["k"] == "switch"), g,
